@@ -44,7 +44,33 @@ def make_doc(rng, levels, where):
                 h.set_span("T1", offset=rng.randint(0, 3), length=rng.randint(1, 4))
             except Exception:  # noqa: BLE001, S110
                 pass
-        body.append(h)
+        # a heading is a heading wherever it sits: directly in the body, in a section, a list item or a table cell
+        holder = rng.choice(["body", "body", "section", "list", "cell"])
+        if holder == "body":
+            body.append(h)
+        elif holder == "section":
+            from odfdo import Section
+
+            sec = Section(name=f"sec{i}")
+            sec.append(Paragraph("in section"))
+            sec.append(h)
+            body.append(sec)
+        elif holder == "list":
+            from odfdo import List, ListItem
+
+            item = ListItem()
+            item.append(h)
+            lst = List()
+            lst.append(item)
+            body.append(lst)
+        else:
+            from odfdo import Table
+
+            t = Table(f"T{i}", width=1, height=1)
+            cell = t.get_cell((0, 0))
+            cell.append(h)
+            t.set_cell((0, 0), cell)
+            body.append(t)
         heads.append(h)
         if rng.random() < 0.5:
             body.append(Paragraph(f"text under {i}"))
